@@ -734,8 +734,10 @@ example :
 
 /-- a Zip with an EMPTY input walks backwards correctly although the lengths differ (the hypothesis of
     `C11_zip_backward_equal` in its second form) -/
-example : (zipI [arrayI [1, 2, 3], arrayI []]).backward 10 = ([], .term) ∧ zipLists [[1, 2, 3], ([] : List Nat)] = [] ∧
-    specOf (.zip [.array [1, 2, 3], .list []]) = some [] ∧ specBwd (.zip [.array [1, 2, 3], .list [7]]) = none := by decide
+example : (zipI [arrayI [1, 2, 3], arrayI ([] : List Nat)]).backward 10 = ([], .term) ∧
+    zipLists [[1, 2, 3], ([] : List Nat)] = [] ∧
+    (specOf (.zip [.array [1, 2, 3], .list []])).map (fun l => l.map Val.show) = some [] ∧
+    (specBwd (.zip [.array [1, 2, 3], .list [7]])).map (fun l => l.map Val.show) = none := by decide
 
 /-- hypotheses of the `get` theorems are met: an Array under a Slice is `GetPure` and its cursor is held by the caller -/
 example : Expr.getPure (.slice (.array [1, 2, 3]) [some 1]) = true ∧ (arrayI [1, 2, 3]).inObject = false ∧
